@@ -86,6 +86,12 @@ def run_twice(job):
     return {"first": a, "second": b}
 
 
+def run_pair_in_process(job):
+    """Worker: two related runs (job["a"], job["b"]) one after the other IN THE SAME PROCESS (what the library keeps in module or
+    class level state survives from the first to the second)."""
+    return {"a": run_plain(dict(job["a"])), "b": run_plain(dict(job["b"]))}
+
+
 def run_many(jobs, procs=None, timeout=600.0, func=None):
     from . import procs as pr
     from .sysrun import PROCS
